@@ -74,7 +74,7 @@ Proof.
   assert (HU : U32 a = a) by (unfold U32, U; apply Z.mod_small; exact Hr). rewrite HU.
   rewrite !shr_div by lia. rewrite shl_mul by lia. rewrite land_ones_mod by lia.
   assert (HP : 0 < 2 ^ bbits g) by (apply Z.pow_pos_nonneg; lia).
-  replace (2 + bbits g) with (2 + bbits g) by lia. rewrite Z.pow_add_r by lia.
+  rewrite Z.pow_add_r by lia.
   change (2 ^ 2) with 4. set (P := 2 ^ bbits g) in *.
   split; [|apply Z.mod_pos_bound; exact HP].
   rewrite <- Z.div_div by lia.
